@@ -256,6 +256,69 @@ def peephole(chk, cases, res, d):
         chk.set("drift_examples", drift[:3])
 
 
+def codegen_theorem(chk, tier, d):
+    """spec/XCodeGenMC: the directive lists XCodeGen builds, run on the label-level Hex machine (HexSym), compute what XLang defines, inside
+    the memory and with a balanced stack - TLC, one state per (tree, valuation, placement)"""
+    jobs = []; outs = []
+    def job(cfg, which, sl, nsl, stride, dev=""):
+        o = os.path.join(d, "xcg_%s_%s_%d.json" % (dev or "code", which or "all", sl)); outs.append((dev, o))
+        jobs.append(dict(module="XCodeGenMC", cfg=cfg, workers=1, heap="3g", timeout=12000,
+                         env={"WHICH": which, "SLICE": str(sl), "NSL": str(nsl), "STRIDE": str(stride), "DEV": dev, "OUT": o}))
+    for sl in range(16):
+        job("XCodeGenMC.cfg", "", sl, 16, 40 if tier == "quick" else 1)
+    for sl in range(4):
+        job("XCodeGenMC.cfg", "calls", sl, 4, 1)
+    job("XCodeGenMC_nosave.cfg", "", 0, 400, 1, "nosave")
+    job("XCodeGenMC_sharedslot.cfg", "calls", 1, 4, 1, "sharedslot")
+    res = vlib.tlc_parallel(jobs, nproc=vlib.NCPU)
+    tot = collections.Counter(); states = 0
+    for (dev, o), r in zip(outs, res):
+        if not os.path.exists(o):
+            raise vlib.MachineryError("XCodeGenMC produced no report (%s): %s" % (o, r.out[-800:]))
+        rep = vlib.read_ndjson(o)[0]
+        if dev:
+            if rep['unsound'] == 0 or not r.violation:
+                raise vlib.MachineryError("XCodeGenMC accepts the deviation %s: the theorem is not live" % dev)
+            chk.cov.setdefault("codegen_deviations_refuted_by_TLC", {})[dev] = rep['example'][:160]
+            continue
+        states += r.distinct or 0
+        tot["cases"] += rep['cases']; tot["defined"] += rep['defined']
+        if rep['unsound'] or r.violation:
+            chk.violation("spec-XCodeGen", "TLC: the code XCodeGen specifies does not compute what XLang defines (or leaves its regions), e.g. %s" % rep['example'][:600])
+    chk.add("states", states); chk.add("transitions", states)
+    chk.set("XCodeGenMC", dict(tot))
+    chk.vacuity(tot["defined"] < (20000 if tier == "quick" else 500000), "XCodeGenMC: too few cases inside XLang's domain: %s" % dict(tot))
+
+
+def codegen(chk, exe, cases, d, tier, rng):
+    """spec/XCodeGenV: `xcmp --insts` and `--insts-lowered` are, line for line, what XCodeGen!Gen / Lower build from the tokens (drift grade)"""
+    import xcodegen, xtext, corpus
+    srcs = {}
+    for path in corpus.repo_sources_x():
+        text = open(path, encoding="latin-1").read()
+        srcs['file:' + os.path.basename(path)] = text           # xhexb.x included: 17,000 lines each way
+        if os.path.basename(path) != "xhexb.x":
+            for j, v in enumerate(xtext.variations(text, rng, 6 if tier == "quick" else 60)):
+                srcs['var:%s:%d' % (os.path.basename(path), j)] = v
+    for pid, P in xlib.template_programs(rng):
+        srcs['tmpl:' + pid] = xlib.src_of(P)
+    pick = list(cases); rng.shuffle(pick)
+    for c in pick[:(1500 if tier == "quick" else 30000)]:
+        srcs['case:' + c['id']] = c['src']
+    recs = xcodegen.run(d, exe, sorted(srcs.items()), tag="c01cg", maxlines=40000)
+    verd = xcodegen.validate(recs, d, "c01cgv")
+    cnt = collections.Counter(v['v'] + ":" + v['cls'] for v in verd)
+    drift = [{"id": r['id'], "class": v['cls'], "line": v['at'], "specification_has": v['want'],
+              "compiler_has": (r['insts'] if v['cls'] == 'insts-differ' else r['lowered'])[v['at'] - 1:v['at']], "src": r['src'][:400]}
+             for r, v in zip(recs, verd) if v['v'] == 'bad']
+    chk.set("codegen_sources", len(recs)); chk.set("codegen_verdicts", dict(cnt))
+    chk.set("codegen_lines_compared", sum(len(r['insts']) + len(r['lowered']) for r, v in zip(recs, verd) if v['cls'] == 'generated'))
+    chk.set("DRIFT_directive_lists_differing_from_XCodeGen", len(drift))
+    if drift:
+        chk.set("codegen_drift_examples", drift[:3])
+    chk.vacuity(cnt["ok:generated"] < 300, "XCodeGenV: only %d sources generated" % cnt["ok:generated"])
+
+
 def frames(chk, exe, cases, verd, d, tier):
     """mechanism grade: XFrames (the calling convention) is model-checked, shown to rest on its store discipline, and the
     runs of a seeded sample of the agreeing programs are validated against it"""
@@ -298,6 +361,8 @@ def run(tier, replay=None):
         steps = sum(v['n'] for v in verd[:-1])
         ok += text_family(chk, exe, d, tier, rng)
         bootstrap(chk, d)
+        codegen_theorem(chk, tier, d)
+        codegen(chk, exe, cases, d, tier, vlib.rng(101))
         frames(chk, exe, cases, verd[:-1], d, tier)
         chk.add("states", steps); chk.add("transitions", steps)
         chk.set("programs", len(cases))
